@@ -81,6 +81,8 @@ func (d *driver) runRandom(cls []*class, n, steps int) {
 		km.SetAnnotations(map[string]string{"verif": "c05"})
 		hist := fmt.Sprintf("%d.%d", d.stream, t)
 		// the history as KeysetManager.tla sees it: an externally read handle, a manager started from it, then the calls
+		// (as the handle shows them: AEAD-like key types have no LEGACY variant and come back as CRUNCHY)
+		ents = d.project(c, h)
 		ext := make([]vt.Ev, len(ents))
 		for i, e := range ents {
 			en, err := h.Entry(i)
